@@ -98,7 +98,17 @@ def run_kernel_check(prop, tier, kernels_wanted, solver_insts, reps, sample_coun
     tcov, straces = sc.trace_part(prop, solver_insts, V, os.path.join(wd, "traces"))
     insolver = sum(1 for t in straces for e in t["ev"] if e["ev"] == "Kernel")
     outdom = sum(1 for t in straces for e in t["ev"] if e["ev"] == "Kernel" and e.get("dom") == "out")
-    cov = dict(states=r["distinct"], transitions=r["generated"], class_patterns=len(sel), kernel_calls=ncalls, kernel_calls_inside_solver_runs=insolver,
+    mach = None
+    if "trsbox" in kernels_wanted:
+        # inside the kernel: Trsbox.tla model-checked, and monitored calls of the real trsbox (a sample of the same class patterns, every
+        # coincidence class, plus the calls of whole solver runs) validated against it snapshot by snapshot
+        from . import trsboxmachine
+        pats = [s for s in sel if s["kernel"] == "trsbox"]
+        keep = [s for s in pats if s.get("coin", "none") not in ("none", "late_bound_then_arc")][:1500]
+        idx = rng.choice(len(pats), size=min(len(pats), sample_counts.get("trsbox_machine", 3000)), replace=False)
+        mach = trsboxmachine.part(V, tier, wd, keep + [pats[int(i)] for i in idx], solver_insts[:sample_counts.get("trsbox_machine_runs", 24)], 1)
+    cov = dict(states=r["distinct"] + (mach["model_states"] if mach else 0), transitions=r["generated"] + (mach["model_transitions"] if mach else 0), kernel_machine=mach,
+               class_patterns=len(sel), kernel_calls=ncalls, kernel_calls_inside_solver_runs=insolver,
                kernel_calls_inside_solver_runs_outside_scale_domain=outdom,
                traces_validated_against_impl=len(traces) + tcov["traces_validated_against_impl"], clause_failures=dict(hits, **tcov["clause_failures"]),
                evaluations=ncalls + insolver, distinct_nontrivial=len(sel), solver_outcomes=tcov["outcomes"],
@@ -106,6 +116,8 @@ def run_kernel_check(prop, tier, kernels_wanted, solver_insts, reps, sample_coun
                     "decades of the property; explored domain: |xopt| <= 100*delta, gradient components 0 or >= 1e-10" % (maxn, reps),
                samples=[dict(state=sel[0], event=traces[0]["ev"][0])])
     return V.finish(cov, "exploration", ["the inequalities are evaluated in binary64 by the harness (TLC cannot); the specification enumerates the classes and evaluates the clauses",
+                                         "Trsbox.tla abstracts the arithmetic of the kernel (which exit fires, which variable meets its bound) and keeps its bookkeeping; it is exhaustive for n <= 3 (quick) / 4 "
+                                         "(thorough) and evaluated as a membership test on monitored calls of any dimension",
                                          "oracles: truncated steepest-descent step (C12), bisection on the clipped ray (C13)"])
 
 
@@ -118,4 +130,5 @@ def run(tier):
         corpus.with_bounds(rng, inst)
         inst["maxfun"] = max(inst["maxfun"], 30)
         insts.append(inst)
-    return run_kernel_check("C12", tier, ["trsbox"], insts, reps=2 if tier == "quick" else 8, sample_counts={"trsbox_hi": 400 if tier == "quick" else 6000, "trsbox_late": 20000 if tier == "quick" else 60000})
+    return run_kernel_check("C12", tier, ["trsbox"], insts, reps=2 if tier == "quick" else 8, sample_counts={"trsbox_hi": 400 if tier == "quick" else 6000, "trsbox_late": 20000 if tier == "quick" else 60000,
+                                           "trsbox_machine": 3000 if tier == "quick" else 40000, "trsbox_machine_runs": 24 if tier == "quick" else 300})
